@@ -218,6 +218,22 @@ def rename_session(rng):
     return st
 
 
+def rename_corners():
+    """RNFR src; optionally something that removes the source or creates/removes the target; RNTO dst - over a small path universe
+    (files, directories, missing names, paths through files, source = target)."""
+    out = []
+    s = 1
+    login = [["connect", s], ["send", s, "USER u1"], ["send", s, "PASS pw1"]]
+    paths = ["f", "g", "d", "d/g", "d/e", "x", "d/x", "f/x"]
+    for src in paths:
+        for dst in paths:
+            for mid in (None, "DELE " + src, "RMD " + src, "MKD " + dst, "DELE " + dst):
+                st = login + [["send", s, "RNFR " + src]] + ([["send", s, mid]] if mid else []) + [["send", s, "RNTO " + dst],
+                             ["send", s, "MLST " + src], ["send", s, "MLST " + dst], ["send", s, "RNTO " + dst]]
+                out.append(st)
+    return out
+
+
 def through_file_sessions():
     """Every kind of (partial) access to a file, directly followed by every verb on a path *through* that file."""
     out = []
@@ -262,6 +278,7 @@ def ftp_level(chk, tier, rng):
     n = 100 if tier == "quick" else 2500
     scheds = [rename_session(rng) for _ in range(n)] + [gen.rand_session(rng, 1, steps=rng.choice([6, 10])) for _ in range(n)]
     scheds += through_file_sessions()
+    scheds += rename_corners() if tier != "quick" else rename_corners()[::2]
     # two sessions with handles on the same file at the same time (a transfer held in its j-th read / write while the other
     # session stats, lists or downloads that file)
     obs = gen.observer_family()
